@@ -1,6 +1,6 @@
 (* C06 / C07 (WBXML half) — executable model of the WBXML output half of src/wbxml_encoder.c.
    Transcribed from (line numbers of the pinned tree):
-     wbxml_encoder.c  encoder_encode_tree (883), parse_node (998), parse_element (1138), parse_attribute (1253),
+     wbxml_encoder.c  encoder_encode_tree (883), parse_node / parse_single_node (998-1150), parse_element, parse_attribute (1253),
                       parse_text (1287), parse_cdata (1372), parse_pi (1407), parse_tree (1421),
                       wbxml_build_result (1450), wbxml_fill_header (1497), wbxml_encode_end (1654),
                       wbxml_encode_tag / _literal / _token (1671-1800), wbxml_encode_attr / _start /
@@ -908,7 +908,8 @@ Definition start_state (e : env) (roots : list node) : est :=
   if e_use_strtbl e then let '(t, n) := strtbl_initialize (e_lang e) roots in init_est t n
   else init_est [] 0.
 
-(* parse_node (one node, without its `next` chain) and the chain; tbl = the main table (for embedded trees) *)
+(* parse_single_node (one node with its children) and parse_node (the loop over the `next` chain; an empty
+   chain, i.e. a NULL root, encodes nothing); tbl = the main table (for embedded trees) *)
 Fixpoint parse_node (tbl : list blang) (e : env) (parent : option tagname) (n : node) (st : est)
   : eres (bytes * est) :=
   let parse_nodes :=
@@ -950,13 +951,9 @@ Fixpoint parse_node (tbl : list blang) (e : env) (parent : option tagname) (n : 
     | None => EErr E_BAD_PARAMETER
     | Some l' =>
       let e' := make_env l' (e_use_strtbl e) (e_ignore_empty e) (e_remove_blanks e) (e_version e) false in
-      match roots with
-      | [] => EErr E_INTERNAL         (* tree->root == NULL is dereferenced by the C *)
-      | _ =>
-        do (body, st') <- parse_nodes e' None roots (start_state e' roots);
-        let doc := fill_header e' st' ++ body in
-        EOk (enc_opaque doc, set_cur_tag st None)
-      end
+      do (body, st') <- parse_nodes e' None roots (start_state e' roots);
+      let doc := fill_header e' st' ++ body in
+      EOk (enc_opaque doc, set_cur_tag st None)
     end
   end.
 
@@ -980,9 +977,5 @@ Definition enc_body (tbl : list blang) (l : blang) (o : options) (roots : list n
 
 (* wbxml_tree_to_wbxml = wbxml_encoder_encode_tree_to_wbxml + wbxml_build_result *)
 Definition enc_wbxml (tbl : list blang) (l : blang) (o : options) (roots : list node) : eres bytes :=
-  match roots with
-  | [] => EErr E_BAD_PARAMETER
-  | _ =>
-    do (body, st) <- enc_body tbl l o roots;
-    EOk (fill_header (enc_env l o) st ++ body)
-  end.
+  do (body, st) <- enc_body tbl l o roots;
+  EOk (fill_header (enc_env l o) st ++ body).
